@@ -24,7 +24,7 @@ META = {
              'suffix, in listing order; the lazy S3 handle creates client and resource at most once and only on first '
              'use. Signature = (part, kind or listing shape, encoding / pages / prefix class, outcome).'),
     'workers': {'quick': 8, 'thorough': 16},
-    'watchdog': {'quick': 300, 'thorough': 1800},
+    'watchdog': {'quick': 600, 'thorough': 3600},
     'assumptions': ['real S3 cannot be reached; the claim is about mosromgr\'s side of the boto3 boundary',
                     'pages without Contents in the middle of a listing are outside the claim'],
 }
